@@ -6,7 +6,7 @@
 (* interactions of that iteration; Iter is applied to the logged pre-state *)
 (* and each property compares its own projection with the logged post.     *)
 (***************************************************************************)
-EXTENDS Engine, TraceBase
+EXTENDS Engine, TraceBase, Loop
 
 FromKVV(q) == [k \in {q[i].k : i \in DOMAIN q} |->
                  LET i == CHOOSE j \in DOMAIN q : q[j].k = k IN V(q[i].id, q[i].len)]
@@ -229,6 +229,27 @@ C07_Reuse == IsPair("reuse") => Ev.a = Ev.b
 \* ... and a request served through such a persister (mode "R") leaves the cache as consistent as the stored session was
 C07_ReuseExit == IsReq /\ Ev.mode = "R" /\ RJudged /\ ~Refused => /\ RQ.e.exit = V(Ev.exit.id, Ev.exit.len) /\ RQ.e.s.c.last = RPost.c.last
 C07_ReuseConsistent == IsReq /\ Ev.mode = "R" /\ Ev.panic = "" /\ Consistent(RPre.c) => Consistent(RPost2.c)
+
+(***************************************************************************)
+(* "pair" lines of kind "loop": a history served through the real          *)
+(* engine.Loop (reader handing out one line per Read, writer tagging every *)
+(* Write with the lines consumed) next to the same history served request  *)
+(* by request on one long-lived engine (a), and the inputs after the last  *)
+(* line served by fresh engines from the store Loop's engine saved to.     *)
+(* Loop.tla says what the driver makes of the engine's answers.            *)
+(***************************************************************************)
+IsLoop == IsPair("loop") /\ ~Ev.refpanic
+\* the reference was given exactly the inputs Loop.tla says the engine gets
+C07_LoopInputs == IsLoop => \A i \in DOMAIN Ev.refin : Ev.refin[i] = LoopInput(Ev.raw, i)
+\* number of inputs the reader could deliver: the initial value + the complete lines
+LoopLines == Ev.nlines
+LR == LoopRun(Ev.a, LoopLines)
+C08_LoopNoPanic == IsLoop => Ev.lpanic = ""
+C07_LoopRefines == IsLoop /\ Ev.lpanic = "" => /\ Ev.w = LR.w
+                                              /\ Ev.lerr = LR.err
+\* Finish ran: the session continues from the store exactly where the reference continues
+C07_LoopResume == IsLoop /\ Ev.lpanic = "" /\ Ev.persist /\ ~Ev.restpanic /\ LR.open =>
+                     Ev.rest = SubSeq(Ev.a, LR.served + 1, Len(Ev.a))
 
 (***************************************************************************)
 (* "langout" lines: requests served from the real resource.DbResource over *)
